@@ -419,6 +419,10 @@ func cmdCheck(argv []string) int {
 			nDis++
 			continue
 		}
+		if o.Result == "solver-disagreement" {
+			engineErrs = append(engineErrs, fmt.Sprintf("%s: solvers disagree (%s)", o.Name, o.RawOut))
+			continue
+		}
 		isKnown := false
 		for _, kf := range known {
 			if kf.Kind == "finding" && kf.Prop == *prop && kf.Obligation == o.Name {
